@@ -1296,7 +1296,7 @@ func GenProg(r *prng.R, cfg Cfg, pkg string) *Prog {
 		tf := &File{Name: name, UsesAPI: true, Decls: src, RefDecls: ref, Extern: fs, Imports: imps}
 		g.prog.Files = append(g.prog.Files, tf)
 		nsrc, nref, nfs := nestedTemplates(r, g.nextTag)
-		g.prog.Files = append(g.prog.Files, &File{Name: "gen_subs.go", UsesAPI: true, Decls: nsrc, RefDecls: nref, Extern: nfs})
+		g.prog.Files = append(g.prog.Files, &File{Name: "gen_subs.go", UsesAPI: true, Decls: nsrc, RefDecls: nref, Extern: nfs, Imports: []string{`"time"`}})
 	}
 	return g.prog
 }
